@@ -602,10 +602,13 @@ func failCausesExcept(c *core.Ctx, except map[*ssa.Function]bool, recvs ...strin
 					}
 					if k != "" {
 						class = k
-					} else {
-						class = "other:" + cd
+						break
 					}
-					break
+					if strings.Contains(cd, "<c:0)") && !strings.HasPrefix(cd, "!") {
+						// a sign test on something that is not a length decides the origin by itself
+						class = "other:" + cd
+						break
+					}
 				}
 			}
 			if os.Getenv("VDEBUG") != "" {
